@@ -189,11 +189,16 @@ def finish(module, ctx: Ctx, wall: float) -> int:
         else:
             new.setdefault(vio["key"], vio)
 
+    # runs against scratch trees (seed matrix, mutation analysis) redirect their outputs so that evidence/ only ever
+    # holds what was observed on /repo itself
+    out_root = Path(os.environ.get("VERIF_OUT_DIR") or VERIF_DIR)
+    (out_root / "evidence").mkdir(parents=True, exist_ok=True)
+    (out_root / "replays").mkdir(parents=True, exist_ok=True)
     replay_paths = {}
     for key, vio in new.items():
         name = f"{pid}-{h64((key, vio['case'])):016x}.json"
         rel = Path("replays") / name
-        write_json(VERIF_DIR / rel, {"property": pid, "key": key, "what": vio["what"], "case": vio["case"],
+        write_json(out_root / rel, {"property": pid, "key": key, "what": vio["what"], "case": vio["case"],
                                      "seed": ctx.seed, "tier": ctx.tier,
                                      "replay_cmd": f"./check {pid} --replay {rel}"})
         replay_paths[key] = str(rel)
@@ -225,7 +230,7 @@ def finish(module, ctx: Ctx, wall: float) -> int:
     }
     if ctx.exhaustive:
         evidence["coverage"]["exhaustive"] = bool(getattr(module, "EXHAUSTIVE_CLAIM", False))
-    write_json(VERIF_DIR / "evidence" / f"{pid}.json", evidence)
+    write_json(out_root / "evidence" / f"{pid}.json", evidence)
 
     print(f"[{pid}] tier={ctx.tier} seed={ctx.seed} evaluations={ctx.evaluations} "
           f"distinct_nontrivial={len(ctx.distinct)} wall={wall:.1f}s")
